@@ -220,17 +220,20 @@ CONSTANTS Alphabet,      \* bytes payloads are made of
 (* constants TLC's cfg syntax cannot express (negative numbers) *)
 MCSizes == {-1, 0, 1, 2, 3}
 MCRunes == {-1, -191, 65, 233, 8364, 55296, 1114112}   \* raw bytes FF and 'A' under the deviation
+MCSizesBig == {-1, 0, 1, 2, 3, 4, 6}
+MCRunesBig == MCRunes \cup {-2147483647, 0, 127, 128, 2047, 2048, 57343, 57344, 65535, 65536, 128512, 1114111}
 
 RECURSIVE BSeq(_, _)
 BSeq(S, n) == IF n = 0 THEN {<<>>}
               ELSE LET T == BSeq(S, n - 1) IN T \cup {Append(t, x) : t \in {u \in T : Len(u) = n - 1}, x \in S}
 Payloads == BSeq(Alphabet, PayMax) \cup ExtraPayloads
 Chunks   == {p \in Payloads : Len(p) <= 512}
+Firsts   == {c \in Chunks : Len(c) <= 1 \/ c \in ExtraPayloads}
+Seconds  == {c \in Chunks : Len(c) <= 1}
 Scripts  ==
        {<<[b |-> p, e |-> e]>> : p \in Chunks, e \in {"EOF", "boom"}}
   \cup {<<[b |-> <<>>, e |-> "neg"]>>}
-  \cup {<<[b |-> p, e |-> "nil"], [b |-> q, e |-> e]>> : p \in Chunks, q \in {<<>>} \cup {c \in Chunks : Len(c) = 1},
-                                                         e \in {"EOF", "boom", "neg"}}
+  \cup {<<[b |-> p, e |-> "nil"], [b |-> q, e |-> e]>> : p \in Firsts, q \in Seconds, e \in {"EOF", "boom", "neg"}}
 
 AllOps == {"write", "wstr", "wbyte", "wrune", "read", "next", "trunc", "grow", "rbyte", "rrune", "unbyte",
            "unrune", "reset", "growhuge", "len", "bytes", "string", "nilstr", "readfrom", "writeto", "rewrite"}
